@@ -628,7 +628,10 @@ class Model:
             return l * r
         if isinstance(expr, ast.Name):
             if cls is not None:
-                pass
+                # a name used inside a class body refers to an earlier class attribute first (ENCODINGS = (_BASE64, _HEX))
+                for k in cls.package_mro()[:1]:
+                    if expr.id in k.class_attrs:
+                        return self.const_eval(k.module, k.class_attrs[expr.id], k, _depth + 1)
             r = self.resolve_name(module, expr.id)
             if r is None:
                 raise ValueError("unresolved name %s" % expr.id)
